@@ -71,7 +71,8 @@ type Case struct {
 	// X != 'no').
 	Form string `json:"form,omitempty"`
 	// Items is the Go type of loop items: "" map[string]any, "struct" condStruct, "ptr" *condStruct
-	// (fields read by JSON tag: it1.ca).
+	// (fields read by JSON tag: it1.ca), "embed" / "embedptr" a struct that embeds condStruct by
+	// value / by pointer (promoted fields read by Go name: it1.Ca).
 	Items string `json:"items,omitempty"`
 	// VLists are the lists of vloop nodes: plain values (nil allowed) bound to a bare loop variable.
 	VLists map[string][]vals.V `json:"vlists,omitempty"`
@@ -135,8 +136,36 @@ var funcNameOf = []string{"title", "len", "default", "type", "json", "string", "
 
 func isCmp(form string) bool { return strings.HasPrefix(form, "cmp-") }
 
+// style is what the source writer gets: the case's form and, behind a bar, its item type.
+func (c *Case) style() string { return c.Form + "|" + c.Items }
+
+func splitStyle(st string) (form, items string) {
+	form, items, _ = strings.Cut(st, "|")
+	return form, items
+}
+
+// EmbeddedConds is embedded (by value / by pointer) in the loop items of the item types "embed" /
+// "embedptr": the condition fields are promoted fields, read by their Go names (it1.Ca).
+type EmbeddedConds = condStruct
+
+type embedItem struct {
+	ID string `json:"id"`
+	EmbeddedConds
+}
+
+type embedPtrItem struct {
+	ID string `json:"id"`
+	*EmbeddedConds
+}
+
 // condText writes a logical condition ([!]name, [!]loopvar.field, [!]p<k>) in the case's form.
-func condText(cond, form string) string {
+func condText(cond, st string) string {
+	form, items := splitStyle(st)
+	if i := strings.IndexByte(cond, '.'); i >= 0 && (items == "embed" || items == "embedptr") {
+		// promoted field of the embedded struct, by its Go name
+		f := cond[i+1:]
+		cond = cond[:i+1] + strings.ToUpper(f[:1]) + f[1:]
+	}
 	neg := ""
 	if strings.HasPrefix(cond, "!") {
 		neg, cond = "!", cond[1:]
@@ -173,7 +202,8 @@ func condText(cond, form string) string {
 
 // probeAttrs says which truthiness consumers a probe carries next to v-show under a form:
 // comparisons are not written into plain bound attributes, and !== not into :class objects.
-func probeAttrs(form string) (attr, class bool) {
+func probeAttrs(st string) (attr, class bool) {
+	form, _ := splitStyle(st)
 	if isCmp(form) {
 		return false, form != "cmp-sne"
 	}
@@ -711,7 +741,7 @@ func writeNodes(sb *strings.Builder, nodes []Node, form string) {
 			fmt.Fprintf(sb, `>t%s</p>`, n.M)
 		case n.Kind == "vloop":
 			v := n.Var
-			if form == "funcname" {
+			if f, _ := splitStyle(form); f == "funcname" {
 				v = condText(v, form)
 			}
 			fmt.Fprintf(sb, `<div data-m="%s" v-for="(vi, %s) in %s">t%s-{{ vi }}`, n.M, v, n.List, n.M)
@@ -763,7 +793,7 @@ func hasInclude(nodes []Node) bool {
 
 func (c *Case) source() string {
 	var sb strings.Builder
-	writeNodes(&sb, c.Nodes, c.Form)
+	writeNodes(&sb, c.Nodes, c.style())
 	return sb.String()
 }
 
@@ -845,6 +875,31 @@ func (c *Case) data() map[string]any {
 			l := make([]condStruct, len(items))
 			for i, it := range items {
 				for k, v := range it {
+					l[i].set(k, goVal(v))
+				}
+			}
+			d[name] = l
+		case "embed":
+			l := make([]embedItem, len(items))
+			for i, it := range items {
+				for k, v := range it {
+					if k == "id" {
+						l[i].ID = v.S
+						continue
+					}
+					l[i].set(k, goVal(v))
+				}
+			}
+			d[name] = l
+		case "embedptr":
+			l := make([]embedPtrItem, len(items))
+			for i, it := range items {
+				l[i].EmbeddedConds = &condStruct{}
+				for k, v := range it {
+					if k == "id" {
+						l[i].ID = v.S
+						continue
+					}
 					l[i].set(k, goVal(v))
 				}
 			}
